@@ -1095,6 +1095,7 @@ func (a *APK) cachedPackage(ctx context.Context, pkg InstallablePackage, cacheDi
 		exp.SignatureHash = signatureHash[:]
 	}
 
+	verifhook.Point("cached.after-sig-stat")
 	f, err := os.Open(ctl)
 	if err != nil {
 		return nil, err
